@@ -11,18 +11,23 @@ use indexmap::IndexMap;
 use rooc::RoocParser;
 use std::collections::HashSet;
 
-fn source_of(text: &str, vars: &[String]) -> String {
+fn source_of(text: &str, vars: &[String], consts: &[(String, String)]) -> String {
     let mut s = format!("min {}\ns.t.\n1 >= 0\n", text);
+    if !consts.is_empty() {
+        s.push_str("where\n");
+        for (k, v) in consts { s.push_str(&format!("let {} = {}\n", k, v)); }
+    }
+    let vars: Vec<&String> = vars.iter().filter(|v| !consts.iter().any(|(k, _)| k == *v)).collect();
     if !vars.is_empty() {
         s.push_str("define\n");
-        s.push_str(&format!("{} as Real\n", vars.join(", ")));
+        s.push_str(&format!("{} as Real\n", vars.iter().map(|v| v.as_str()).collect::<Vec<_>>().join(", ")));
     }
     s
 }
 
 /// (canonical answer, variables of the tree)
 fn parse_objective(text: &str) -> (String, Vec<String>, bool) {
-    let src = source_of(text, &[]);
+    let src = source_of(text, &[], &[]);
     let res = std::panic::catch_unwind(|| RoocParser::new(src.clone()).parse());
     match res {
         Err(_) => ("(err panic)".into(), vec![], false),
@@ -36,8 +41,8 @@ fn parse_objective(text: &str) -> (String, Vec<String>, bool) {
     }
 }
 
-fn compiled_objective(text: &str, vars: &[String]) -> Option<String> {
-    let src = source_of(text, vars);
+fn compiled_objective(text: &str, vars: &[String], consts: &[(String, String)]) -> Option<String> {
+    let src = source_of(text, vars, consts);
     let res = std::panic::catch_unwind(|| RoocParser::new(src).parse_and_transform(vec![], &IndexMap::new()));
     match res {
         Ok(Ok(m)) => Some(sx::exp(&m.objective().rhs)),
@@ -73,7 +78,10 @@ fn one(toks: &[T], mode: u8, r: &mut Rng, stream: &str) -> Case {
     one_text(&text, toks, stream)
 }
 
-fn one_text(text: &str, toks: &[T], stream: &str) -> Case {
+fn one_text(text: &str, toks: &[T], stream: &str) -> Case { one_ctx(text, toks, stream, &[]) }
+
+/// `consts`: named `where` constants (name, integer / decimal literal) the expression may mention
+fn one_ctx(text: &str, toks: &[T], stream: &str, consts: &[(String, String)]) -> Case {
     let (imp, vars, accepted) = parse_objective(text);
     let mut c = Case::default();
     c.req = format!("parse {}", sx::q(text));
@@ -87,12 +95,18 @@ fn one_text(text: &str, toks: &[T], stream: &str) -> Case {
     let impl_part = if !accepted {
         "reject".to_string()
     } else {
-        match compiled_objective(text, &vars) {
+        match compiled_objective(text, &vars, consts) {
             Some(e) => { c.tags.push("compiled".into()); format!("(compiled {})", e) }
             None => { c.tags.push("pre-only".into()); format!("(pre {})", &imp[4..imp.len() - 1]) }
         }
     };
     c.oracle = format!("check {} {}", sx::q(text), impl_part);
+    if !consts.is_empty() {
+        c.oracle.push_str(" (consts");
+        for (k, v) in consts { c.oracle.push_str(&format!(" ({} {})", sx::q(k), sx::q(v))); }
+        c.oracle.push(')');
+        c.tags.push("where-constants".into());
+    }
     // words that begin with `true`/`false`: the same text with those words renamed to plain identifiers, so that the
     // oracle can tell the known `boolean`-rule defect from any other deviation in the same case
     if let Some(twin) = dequirk(text) {
@@ -124,7 +138,7 @@ fn dequirk(text: &str) -> Option<String> {
     let mut i = 0;
     let mut k = 0;
     let mut changed = false;
-    let wc = |c: char| c.is_ascii_alphanumeric() || c == '_';
+    let wc = |c: char| c.is_alphanumeric() || c == '_';
     while i < cs.len() {
         if cs[i] == '$' || wc(cs[i]) {
             let st = i;
@@ -135,7 +149,7 @@ fn dequirk(text: &str) -> Option<String> {
             let boolish = (low.starts_with("true") || low.starts_with("false")) && word != "true" && word != "false";
             let mut j = i;
             while j < cs.len() && (cs[j] == ' ' || cs[j] == '\t') { j += 1; }
-            let call = j < cs.len() && cs[j] == '(' && word.chars().all(|c| c.is_ascii_alphabetic());
+            let call = j < cs.len() && cs[j] == '(' && word.chars().all(|c| c.is_alphabetic());
             if boolish && !call && !cs[st].is_ascii_digit() {
                 out.push_str(&format!("qz{}", ["a", "b", "c", "d", "e", "f", "g", "h"][k % 8]));
                 k += 1;
@@ -212,7 +226,7 @@ fn gen_leaf(r: &mut Rng, g: &GenCfg, depth: u32, out: &mut Vec<T>) {
         6 | 7 => out.push(int(*r.pick(&["0", "1", "2", "3", "10"]))),
         8 => out.push(T::Float(r.pick(&["2.5", "0.25", "1.0", "3.75", "0.1", "2.50"]).to_string())),
         9 if g.bools => out.push(w(*r.pick(&["true", "false"]))),
-        10 if g.odd_words => out.push(w(*r.pick(&["android", "order", "nothing", "iffy", "xor1", "implies2", "mins", "format", "$x", "_u", "inx", "ast", "lets", "And", "NOT"]))),
+        10 if g.odd_words => out.push(w(*r.pick(&["android", "order", "nothing", "iffy", "xor1", "implies2", "mins", "format", "$x", "_u", "inx", "ast", "lets", "And", "NOT", "forêt", "orée", "notée", "inès", "asín", "maxı", "trueé", "λ", "дa"]))),
         11 | 12 => {
             // implicit multiplication: (number | parenthesis)+ variable?
             let n = 1 + r.below(3);
@@ -316,6 +330,43 @@ pub fn generate(seed: u64, n: usize, thorough: bool, corpus: Option<&str>) -> Ve
         push(one(&t, 1, &mut r, "operator-triples"), &mut cases);
     } } }
 
+    // --- left-associative chains `v op c1 op c2 [op c3 [op c4]]` whose trailing operands are compile-time constants
+    //     (literals and named `where` constants), every arithmetic operator and every same-level mixture: the compiled
+    //     objective (after `into_exp`) must group them to the left
+    let consts: Vec<(String, String)> = vec![("k".into(), "2".into()), ("m".into(), "4".into()), ("h".into(), "0.5".into()), ("n".into(), "3".into())];
+    let lits = ["2", "3", "4", "5", "0.5", "10"];
+    let names = ["k", "m", "h", "n"];
+    let mut chain_ops: Vec<Vec<&str>> = vec![];
+    for o in ["+", "-", "*", "/"] { for len in 2..=4 { chain_ops.push(vec![o; len]); } }
+    for (a, b) in [("-", "+"), ("+", "-"), ("/", "*"), ("*", "/")] {
+        chain_ops.push(vec![a, b]); chain_ops.push(vec![a, b, a]); chain_ops.push(vec![a, a, b]); chain_ops.push(vec![b, a, a, b]);
+    }
+    for ops in &chain_ops {
+        for variant in 0..(if thorough { 12 } else { 5 }) {
+            let head: Vec<T> = match variant % 4 { 0 => vec![w("x")], 1 => vec![int("2"), w("x")], 2 => vec![T::LPar, w("x"), T::Plus, w("y"), T::RPar], _ => vec![w("y")] };
+            let mut t = head;
+            for (i, o) in ops.iter().enumerate() {
+                t.push(bin_tok(o));
+                // literal, named constant, or a mixture; the last two operands are always constants
+                let named = match variant { 0 => false, 1 => true, _ => r.chance(1, 2) };
+                if named { t.push(w(names[(i + variant) % names.len()])); }
+                else {
+                    let l = lits[(i + variant + r.below(3)) % lits.len()];
+                    t.push(if l.contains('.') { T::Float(l.to_string()) } else { int(l) });
+                }
+            }
+            // as the whole objective, below a looser operator, and as a parenthesised operand
+            let text = syntax::render(&t, (variant % 2) as u8, &mut r);
+            push(one_ctx(&text, &t, "constant-chains", &consts), &mut cases);
+            let mut t2 = vec![w("z"), T::Plus]; t2.extend(t.clone());
+            let text2 = syntax::render(&t2, 0, &mut r);
+            push(one_ctx(&text2, &t2, "constant-chains", &consts), &mut cases);
+            let mut t3 = vec![T::LPar]; t3.extend(t.clone()); t3.extend([T::RPar, T::Star, w("z")]);
+            let text3 = syntax::render(&t3, 0, &mut r);
+            push(one_ctx(&text3, &t3, "constant-chains", &consts), &mut cases);
+        }
+    }
+
     // --- implicit multiplication: every arrangement of up to 4 atoms {2, (a), (a+b), x} in the contexts a/_ , -_ , _*c
     let atoms: [Vec<T>; 5] = [vec![int("2")], vec![T::LPar, w("a"), T::RPar], vec![T::LPar, w("a"), T::Plus, w("b"), T::RPar], vec![w("x")], vec![T::Float("2.5".into())]];
     let mut arrangements: Vec<Vec<usize>> = vec![];
@@ -350,7 +401,8 @@ pub fn generate(seed: u64, n: usize, thorough: bool, corpus: Option<&str>) -> Ve
     let kws = ["for", "min", "max", "where", "true", "false", "in", "as", "define", "let", "solve", "and", "or", "not", "implies", "iff", "xor"];
     for k in kws {
         let cap = format!("{}{}", k[..1].to_uppercase(), &k[1..]);
-        let variants = [k.to_string(), format!("{}x", k), format!("{}1", k), format!("x{}", k), cap, k.to_uppercase(), format!("${}", k), format!("_{}", k), format!("{}{}", k, k)];
+        let variants = [k.to_string(), format!("{}x", k), format!("{}1", k), format!("x{}", k), cap, k.to_uppercase(), format!("${}", k), format!("_{}", k), format!("{}{}", k, k),
+            format!("{}é", k), format!("{}êt", k), format!("{}ıñ", k), format!("é{}", k), format!("{}ée1", k)];
         for v in variants.iter() {
             let forms: Vec<Vec<T>> = vec![
                 vec![w(v)],
